@@ -43,6 +43,9 @@ pub struct Opt {
     pub filters: Vec<refb::RefFilter>,
     /// .lzma: expected uncompressed size given to the writer (None = end marker)
     pub expected: Option<u64>,
+    /// .lzma: LZMAWriter::new(use_header, use_end_marker) given explicitly (default: new_use_header's choice)
+    pub header: Option<bool>,
+    pub marker: Option<bool>,
 }
 
 #[derive(Deserialize, Clone, Debug)]
@@ -84,6 +87,12 @@ pub struct Part {
     /// ours: write call sizes (default one write)
     #[serde(default)]
     pub writes: Vec<usize>,
+    /// data made of segments of different compressibility: [[class, n], ...] (overrides class / n)
+    #[serde(default)]
+    pub segs: Vec<(String, usize)>,
+    /// ref: input offsets at which LZMA_SYNC_FLUSH is issued (LZMA2 chunk boundaries inside a block)
+    #[serde(default)]
+    pub syncs: Vec<usize>,
     /// forge: LZMA2 payload made of uncompressed chunks of this many bytes (0 = reference encoder output)
     #[serde(default)]
     pub piece: usize,
@@ -113,6 +122,9 @@ pub struct Scn {
     pub multi: bool,
     #[serde(default)]
     pub mt: bool,
+    /// the byte source of the crate's (single-threaded) reader hands out at most this many bytes per read call (cycle)
+    #[serde(default)]
+    pub src_chunks: Vec<usize>,
     /// writer families: the scenario's data is a random block of this many bytes repeated cyclically
     /// (matches at exactly this distance)
     #[serde(default)]
@@ -130,17 +142,43 @@ pub struct Scn {
 }
 
 // ------------------------------------------------------------------------------------------ helpers
+thread_local! {
+    /// position of the last CountSrc read on this thread, and what `drain` observed at / after end of stream:
+    /// (source position when read() first returned 0, results of two further read() calls, source position after them)
+    static SRC_POS: std::cell::Cell<usize> = const { std::cell::Cell::new(0) };
+    static EOS: std::cell::RefCell<Option<(usize, Vec<String>, usize)>> = const { std::cell::RefCell::new(None) };
+}
+
+fn take_eos(fallback: usize) -> (usize, Value, usize) {
+    match EOS.with(|e| e.borrow_mut().take()) {
+        Some((p0, again, p1)) => (p0, json!(again), p1),
+        None => (fallback, Value::Null, fallback),
+    }
+}
+
 pub struct CountSrc {
     pub data: Vec<u8>,
     pub pos: usize,
     pub calls: usize,
+    /// cycle of maximal read sizes (empty = no limit): a source that delivers its bytes in pieces
+    pub chunks: Vec<usize>,
+}
+
+impl CountSrc {
+    pub fn new(data: Vec<u8>, chunks: &[usize]) -> Self {
+        CountSrc { data, pos: 0, calls: 0, chunks: chunks.to_vec() }
+    }
 }
 
 impl Read for CountSrc {
     fn read(&mut self, buf: &mut [u8]) -> std::io::Result<usize> {
-        let n = buf.len().min(self.data.len() - self.pos);
+        let mut n = buf.len().min(self.data.len() - self.pos);
+        if !self.chunks.is_empty() {
+            n = n.min(self.chunks[self.calls % self.chunks.len()].max(1));
+        }
         buf[..n].copy_from_slice(&self.data[self.pos..self.pos + n]);
         self.pos += n;
+        SRC_POS.with(|p| p.set(self.pos));
         self.calls += 1;
         Ok(n)
     }
@@ -232,6 +270,7 @@ fn errs(e: &std::io::Error) -> String {
 
 /// Drains `r` with the read-size cycle `reads` (default 4096). Returns (bytes, error).
 fn drain<R: Read>(r: &mut R, reads: &[usize]) -> (Vec<u8>, Option<String>) {
+    EOS.with(|e| *e.borrow_mut() = None);
     let mut out = Vec::new();
     let mut i = 0usize;
     let mut buf = vec![0u8; reads.iter().copied().max().unwrap_or(4096).max(1)];
@@ -239,7 +278,19 @@ fn drain<R: Read>(r: &mut R, reads: &[usize]) -> (Vec<u8>, Option<String>) {
         let k = if reads.is_empty() { 4096 } else { reads[i % reads.len()].max(1) };
         i += 1;
         match r.read(&mut buf[..k]) {
-            Ok(0) => return (out, None),
+            Ok(0) => {
+                // end of stream: a caller may well call read() again (read_to_end, buffered readers): it must get Ok(0)
+                // again and the source must not move
+                let p0 = SRC_POS.with(|p| p.get());
+                let again: Vec<String> = (0..2)
+                    .map(|_| match r.read(&mut buf[..k]) {
+                        Ok(n) => format!("ok{n}"),
+                        Err(e) => format!("err:{}", errs(&e)),
+                    })
+                    .collect();
+                EOS.with(|e| *e.borrow_mut() = Some((p0, again, SRC_POS.with(|p| p.get()))));
+                return (out, None);
+            }
             Ok(n) => out.extend_from_slice(&buf[..n]),
             Err(e) => return (out, Some(errs(&e))),
         }
@@ -395,12 +446,13 @@ fn run_xz_write(s: &Scn) -> Value {
     let want = accepted(&sc, &res);
     let Some(file) = file else { return json!({"outcome":"no_file","calls":res}) };
     let p = strict::parse_xz(&file, Some(&want));
-    let mut src = CountSrc { data: file.clone(), pos: 0, calls: 0 };
+    let mut src = CountSrc::new(file.clone(), &s.src_chunks);
     let mut rd = XZReader::new(&mut src, false);
     let (out, err) = drain(&mut rd, &s.reads);
     drop(rd);
+    let (c0, again, c1) = take_eos(src.pos);
     json!({"outcome":"ok","calls":res,"file_len":file.len(),"recs":p.recs,"block_usizes":p.block_usizes,"strict_bad":p.bad,
-           "rt":{"ok":err.is_none(),"err":err,"cmp":cmp(&out,&want)},"consumed":src.pos,
+           "rt":{"ok":err.is_none(),"err":err,"cmp":cmp(&out,&want)},"consumed":c0,"again":again,"consumed_after":c1,
            "ref":reference("xz",&file,&want,0),"input_len":want.len(),"digest":gen::digest(&file),
            "head": gen::hex(&file[..file.len().min(96)])})
 }
@@ -414,11 +466,12 @@ fn run_lz_write(s: &Scn) -> Value {
     let want = accepted(&sc, &res);
     let Some(file) = file else { return json!({"outcome":"no_file","calls":res}) };
     let p = strict::parse_lz(&file, Some(&want));
-    let mut src = CountSrc { data: file.clone(), pos: 0, calls: 0 };
+    let mut src = CountSrc::new(file.clone(), &s.src_chunks);
     let (out, err) = match LZIPReader::new(&mut src) {
         Ok(mut rd) => drain(&mut rd, &s.reads),
         Err(e) => (vec![], Some(errs(&e))),
     };
+    let (c0, again, c1) = take_eos(src.pos);
     // multi-threaded reader: member order and count
     let mt = match LZIPReaderMT::new(Cursor::new(file.clone()), 2) {
         Ok(mut rd) => {
@@ -428,29 +481,42 @@ fn run_lz_write(s: &Scn) -> Value {
         Err(e) => json!({"ok":false,"err":errs(&e)}),
     };
     json!({"outcome":"ok","calls":res,"file_len":file.len(),"recs":p.recs,"data_sizes":p.data_sizes,"strict_bad":p.bad,
-           "rt":{"ok":err.is_none(),"err":err,"cmp":cmp(&out,&want)},"consumed":src.pos,"mt":mt,
+           "rt":{"ok":err.is_none(),"err":err,"cmp":cmp(&out,&want)},"consumed":c0,"again":again,"consumed_after":c1,"mt":mt,
            "ref":reference("lz",&file,&want,0),"input_len":want.len(),"digest":gen::digest(&file)})
 }
 
 fn run_lzma_write(s: &Scn) -> Value {
     let sc = script(s);
     let lo = lzma_opts(&s.opt);
-    let w = match LZMAWriter::new_use_header(Vec::new(), &lo, s.opt.expected) {
+    let use_header = s.opt.header.unwrap_or(true);
+    let marker = s.opt.marker.unwrap_or(s.opt.expected.is_none());
+    let w = match LZMAWriter::new(Vec::new(), &lo, use_header, marker, s.opt.expected) {
         Ok(w) => w,
         Err(e) => return json!({"outcome":"new_err","err":errs(&e)}),
     };
     let (res, file) = drive(&sc, w, |w, b| w.write(b), |w| w.flush(), |w| w.finish());
     let want = accepted(&sc, &res);
     let Some(file) = file else { return json!({"outcome":"no_file","calls":res,"input_len":want.len()}) };
-    let hdr = strict::parse_lzma_header(&file);
-    let mut src = CountSrc { data: file.clone(), pos: 0, calls: 0 };
-    let (out, err) = match LZMAReader::new_mem_limit(&mut src, u32::MAX, None) {
-        Ok(mut rd) => drain(&mut rd, &s.reads),
-        Err(e) => (vec![], Some(errs(&e))),
+    let hdr = if use_header { strict::parse_lzma_header(&file) } else { json!({"k":"NoHdr","size":-2,"rc0": file.first() == Some(&0)}) };
+    let mut src = CountSrc::new(file.clone(), &s.src_chunks);
+    let (out, err) = if use_header {
+        match LZMAReader::new_mem_limit(&mut src, u32::MAX, None) {
+            Ok(mut rd) => drain(&mut rd, &s.reads),
+            Err(e) => (vec![], Some(errs(&e))),
+        }
+    } else {
+        // raw stream: the caller has to know the parameters; without an end marker also the size
+        let size = if marker { u64::MAX } else { want.len() as u64 };
+        match LZMAReader::new(&mut src, size, lo.lc, lo.lp, lo.pb, lo.dict_size, None) {
+            Ok(mut rd) => drain(&mut rd, &s.reads),
+            Err(e) => (vec![], Some(errs(&e))),
+        }
     };
-    json!({"outcome":"ok","calls":res,"file_len":file.len(),"recs":[hdr],
-           "rt":{"ok":err.is_none(),"err":err,"cmp":cmp(&out,&want)},"consumed":src.pos,
-           "ref":reference("lzma",&file,&want,0),"input_len":want.len(),"digest":gen::digest(&file)})
+    let (c0, again, c1) = take_eos(src.pos);
+    let rf = if use_header { reference("lzma", &file, &want, 0) } else { json!({"ok":true,"equal":true,"skipped":true,"err":Value::Null,"len":want.len(),"total_in":file.len()}) };
+    json!({"outcome":"ok","calls":res,"file_len":file.len(),"recs":[hdr],"header":use_header,"marker":marker,
+           "rt":{"ok":err.is_none(),"err":err,"cmp":cmp(&out,&want)},"consumed":c0,"again":again,"consumed_after":c1,
+           "ref":rf,"input_len":want.len(),"digest":gen::digest(&file)})
 }
 
 fn run_lzma2_write(s: &Scn) -> Value {
@@ -463,10 +529,11 @@ fn run_lzma2_write(s: &Scn) -> Value {
     let want = accepted(&sc, &res);
     let Some(file) = file else { return json!({"outcome":"no_file","calls":res}) };
     let (recs, walk) = strict::lzma2_records(&file);
-    let mut src = CountSrc { data: file.clone(), pos: 0, calls: 0 };
+    let mut src = CountSrc::new(file.clone(), &s.src_chunks);
     let mut rd = LZMA2Reader::new(&mut src, dict, None);
     let (out, err) = drain(&mut rd, &s.reads);
     drop(rd);
+    let (c0, again, c1) = take_eos(src.pos);
     // multi-threaded reader: same bytes, and the number of units it cut
     let mt = {
         let mut rd = LZMA2ReaderMT::new(Cursor::new(file.clone()), dict, None, 2);
@@ -474,7 +541,7 @@ fn run_lzma2_write(s: &Scn) -> Value {
         json!({"ok":e2.is_none(),"err":e2,"cmp":cmp(&o2,&want),"chunk_count":rd.chunk_count()})
     };
     json!({"outcome":"ok","calls":res,"file_len":file.len(),"recs":recs,"walk_len":walk.len,"walk_usize":walk.usize_total,"mt":mt,
-           "rt":{"ok":err.is_none(),"err":err,"cmp":cmp(&out,&want)},"consumed":src.pos,
+           "rt":{"ok":err.is_none(),"err":err,"cmp":cmp(&out,&want)},"consumed":c0,"again":again,"consumed_after":c1,
            "ref":reference("lzma2",&file,&want,dict),"input_len":want.len(),"digest":gen::digest(&file)})
 }
 
@@ -530,11 +597,12 @@ fn ours_stream(kind: &str, p: &Part, data: &[u8]) -> Result<Vec<u8>, String> {
 fn ref_stream(kind: &str, p: &Part, data: &[u8]) -> Result<Vec<u8>, String> {
     let mut c = ref_cfg(&p.opt);
     c.flush_at = p.cuts.clone();
+    c.sync_at = p.syncs.clone();
     match kind {
         "xz" => refb::enc_xz(data, &c),
         "lzma" => refb::enc_lzma(data, &c),
         "lzma2" => {
-            c.sync_at = p.cuts.clone();
+            c.sync_at.extend(p.cuts.iter().copied());
             refb::enc_raw_lzma2(data, &c)
         }
         _ => Err("the reference has no lzip encoder".into()),
@@ -562,7 +630,15 @@ fn run_read(s: &Scn) -> Value {
             }
             "bytes" => input.extend(gen::unhex(&p.hex)),
             k => {
-                let data = gen::data(if p.class.is_empty() { "text" } else { &p.class }, p.n, p.seed ^ s.seed.rotate_left(7));
+                let data = if p.segs.is_empty() {
+                    gen::data(if p.class.is_empty() { "text" } else { &p.class }, p.n, p.seed ^ s.seed.rotate_left(7))
+                } else {
+                    let mut d = Vec::new();
+                    for (si, (cl, n)) in p.segs.iter().enumerate() {
+                        d.extend(gen::data(cl, *n, p.seed ^ (si as u64) << 20));
+                    }
+                    d
+                };
                 let r = match p.src.as_str() {
                     "ref" => ref_stream(k, p, &data),
                     "forge" if k == "lzma2" => Ok(crate::forge::lzma2_unc(&data, if p.piece == 0 { 65536 } else { p.piece })),
@@ -581,7 +657,7 @@ fn run_read(s: &Scn) -> Value {
         contents.push(content);
     }
     // expected outputs: concatenation of the first j stream parts
-    let mut src = CountSrc { data: input.clone(), pos: 0, calls: 0 };
+    let mut src = CountSrc::new(input.clone(), &s.src_chunks);
     let dict = s.parts.iter().find(|p| p.k == "lzma2").and_then(|p| p.opt.dict).unwrap_or(LZMAOptions::with_preset(s.parts.first().map(|p| p.opt.preset).unwrap_or(6)).dict_size);
     let mut member_count: i64 = -1;
     let (out, err): (Vec<u8>, Option<String>) = match s.fmt.as_str() {
@@ -611,6 +687,7 @@ fn run_read(s: &Scn) -> Value {
             drain(&mut rd, &s.reads)
         }
     };
+    let (c0, again, c1) = if s.mt { (src.pos, Value::Null, src.pos) } else { take_eos(src.pos) };
     let mut matched: i64 = -1;
     let mut acc: Vec<u8> = Vec::new();
     if out.is_empty() {
@@ -655,7 +732,7 @@ fn run_read(s: &Scn) -> Value {
         Value::Null
     };
     json!({"outcome": if err.is_none() {"eof"} else {"err"}, "err": err, "out_len": out.len(), "out_digest": gen::digest(&out),
-           "matched": matched, "consumed": src.pos, "ends": ends, "input_len": input.len(), "ref": rfv, "recs": recs,
+           "matched": matched, "consumed": c0, "again": again, "consumed_after": c1, "ends": ends, "input_len": input.len(), "ref": rfv, "recs": recs,
            "member_count": member_count, "content_lens": contents.iter().map(|c| c.len()).collect::<Vec<_>>(),
            "src_calls": src.calls})
 }
